@@ -1,9 +1,15 @@
 //! The SOCKS5 forwarder end to end: the real endpoint (`Core::listen` on a loopback port) configured with a SOCKS5 upstream,
 //! a scripted SOCKS5 server on loopback, a real HTTP/1.1-over-TLS client.
 //! in : [extended_auth (0|1), client sends credentials (0|1), method the server selects, auth status, reply code, bound address type (1|3|4),
-//!       tail bytes after the reply, server delivery: 0 whole | 1 byte-wise, destination: 0 name | 1 IPv4 | 2 IPv6 | 3 IPv4-mapped IPv6]
+//!       tail bytes after the reply, server delivery: 0 whole | 1 byte-wise, destination: 0 name | 1 IPv4 | 2 IPv6 | 3 IPv4-mapped IPv6,
+//!       request: 0 CONNECT <destination>:443 | 1 GET http://<destination>/x (no port: 80) | 2 GET http://<destination>:8080/x
+//!                | 3 GET http://someone@<destination>:8080/x
+//!                (the scripted server then plays the origin behind the tunnel: it answers the forwarded request with a 200 and a body),
+//!       credentials: 0 `u1:p1` checked by the endpoint's registry | 1 `:p1` | 2 `u1:` (no authenticator configured: the SOCKS5 server
+//!                is the one that checks them) | 3 as 0, and the client's User-Agent field has an empty value]
 //! out: [996] | [status, X-Warning code, bytes of the tunnel intact (0|1)] socks-received target-seen
 //!        intact: after a 200 the client reads the server's tail followed by the echo of what it sent, nothing else
+//!                (GET: the body of the origin's response)
 //!        target-seen: [atyp, port] address-bytes of the CONNECT request the SOCKS server received (or empty)
 use crate::util::*;
 use std::sync::{Arc, Mutex};
@@ -34,6 +40,8 @@ pub fn run(toks: Vec<Tok>) -> Vec<Tok> {
     let rt = tokio::runtime::Builder::new_multi_thread().worker_threads(2).enable_all().build().unwrap();
     rt.block_on(async move {
         let (ext, with_creds, method, auth_status, code, atyp, tail_n, bytewise) = (f[0] == 1, f[1] == 1, f[2] as u8, f[3] as u8, f[4] as u8, f[5] as u8, f[6] as usize, f[7] == 1);
+        let form = f.get(9).copied().unwrap_or(0);
+        let cred_variant = f.get(10).copied().unwrap_or(0);
         let l = TcpListener::bind("127.0.0.1:0").await.unwrap();
         let socks_addr = l.local_addr().unwrap();
         let received = Arc::new(Mutex::new(Vec::<u8>::new()));
@@ -126,7 +134,15 @@ pub fn run(toks: Vec<Tok>) -> Vec<Tok> {
                 }
                 match tokio::time::timeout(Duration::from_secs(3), s.read(&mut buf)).await {
                     Ok(Ok(n)) if n > 0 => {
-                        if stage == 2 {
+                        if stage == 2 && form != 0 {
+                            // the tunnel carries a forwarded plain-HTTP request: the origin answers it and closes
+                            pending.extend_from_slice(&buf[..n]);
+                            if pending.windows(4).any(|w| w == b"\r\n\r\n") {
+                                let _ = s.write_all(b"HTTP/1.1 200 OK\r\nContent-Length: 9\r\nConnection: close\r\n\r\norigin-ok").await;
+                                let _ = s.shutdown().await;
+                                return;
+                            }
+                        } else if stage == 2 {
                             // the tunnel: echo
                             if s.write_all(&buf[..n]).await.is_err() {
                                 return;
@@ -159,21 +175,33 @@ pub fn run(toks: Vec<Tok>) -> Vec<Tok> {
                 .unwrap()
         };
         let auth: Option<Arc<dyn Authenticator>> = Some(Arc::new(RegistryBasedAuthenticator::new(&crate::engines::c01::clients())));
-        let auth = if with_creds { auth } else { None };
+        // credentials with an empty half are not in the registry: they are for the SOCKS5 server to judge (no authenticator configured)
+        let auth = if with_creds && cred_variant != 1 && cred_variant != 2 { auth } else { None };
         let Some(ep) = crate::front::start(make, crate::ctxutil::basic_hosts, auth).await else {
             return vec![vec![996]];
         };
         let Some(mut s) = crate::front::tls_connect(ep.addr, "localhost", &[b"http/1.1"]).await else { return vec![vec![996]] };
         // f[8]: the destination of the CONNECT: 0 a name | 1 an IPv4 literal | 2 an IPv6 literal | 3 an IPv4-mapped IPv6 literal
-        let target = match f.get(8).copied().unwrap_or(0) {
-            1 => "203.0.113.9:443",
-            2 => "[2001:db8::7]:443",
-            3 => "[::ffff:203.0.113.9]:443",
-            _ => "example.org:443",
+        let host = match f.get(8).copied().unwrap_or(0) {
+            1 => "203.0.113.9",
+            2 => "[2001:db8::7]",
+            3 => "[::ffff:203.0.113.9]",
+            _ => "example.org",
         };
-        let mut head = format!("CONNECT {} HTTP/1.1\r\nHost: x\r\nUser-Agent: verif-agent\r\n", target).into_bytes();
+        let user_agent = if cred_variant == 3 { "User-Agent:\r\n" } else { "User-Agent: verif-agent\r\n" };
+        let mut head = match form {
+            1 => format!("GET http://{}/x HTTP/1.1\r\nHost: {}\r\n{}", host, host, user_agent),
+            2 => format!("GET http://{}:8080/x HTTP/1.1\r\nHost: {}:8080\r\n{}", host, host, user_agent),
+            3 => format!("GET http://someone@{}:8080/x HTTP/1.1\r\nHost: {}:8080\r\n{}", host, host, user_agent),
+            _ => format!("CONNECT {}:443 HTTP/1.1\r\nHost: x\r\n{}", host, user_agent),
+        }
+        .into_bytes();
         if with_creds {
-            head.extend_from_slice(b"Proxy-Authorization: Basic dTE6cDE=\r\n"); // u1:p1
+            head.extend_from_slice(match cred_variant {
+                1 => &b"Proxy-Authorization: Basic OnAx\r\n"[..], // :p1
+                2 => &b"Proxy-Authorization: Basic dTE6\r\n"[..], // u1:
+                _ => &b"Proxy-Authorization: Basic dTE6cDE=\r\n"[..], // u1:p1
+            });
         }
         head.extend_from_slice(b"\r\n");
         let _ = s.write_all(&head).await;
@@ -196,8 +224,12 @@ pub fn run(toks: Vec<Tok>) -> Vec<Tok> {
         if status == 200 {
             let p = acc.windows(4).position(|w| w == b"\r\n\r\n").unwrap() + 4;
             let mut got = acc[p..].to_vec();
-            let _ = s.write_all(b"client-ping").await;
-            let want: Vec<u8> = tail.iter().cloned().chain(b"client-ping".iter().cloned()).collect();
+            let want: Vec<u8> = if form != 0 {
+                b"origin-ok".to_vec()
+            } else {
+                let _ = s.write_all(b"client-ping").await;
+                tail.iter().cloned().chain(b"client-ping".iter().cloned()).collect()
+            };
             while got.len() < want.len() {
                 match tokio::time::timeout(Duration::from_secs(2), s.read(&mut buf)).await {
                     Ok(Ok(n)) if n > 0 => got.extend_from_slice(&buf[..n]),
